@@ -217,9 +217,9 @@ PROPS = {
     },
     "C17": {
         "rule": "live: MemReader::for_virtual_mem / for_file / for_ptrace (target ptrace-stopped) on ranges inside, ending exactly at, and crossing the end of "
-                "pattern regions (address-derived fill) followed by an unmapped page, a PROT_NONE page or another readable page; lengths 1 … 70000 dense near "
+                "pattern regions (address-derived fill; preceded by an unmapped page, with short ranges starting 0 … 8 bytes after it) followed by an unmapped page, a PROT_NONE page or another readable page; lengths 1 … 70000 dense near "
                 "1 … 24 and near page multiples, every alignment mod 8. Distinct = (strategy, neighbour kind, start mod 8, length mod 8, pages, crossing, outcome).",
-        "expected_tags": ["strat.v", "strat.f", "strat.p", "kind.u", "kind.n", "kind.r", "range.inside", "range.atEnd", "range.crossing", "len.partialWord", "result.err"],
+        "expected_tags": ["strat.v", "strat.f", "strat.p", "kind.u", "kind.n", "kind.r", "range.inside", "range.atEnd", "range.crossing", "range.atStart", "len.partialWord", "result.err"],
         "trusted_base": ["kernel semantics of process_vm_readv (needs PROT_READ, page-granular prefix), pread(/proc/pid/mem) and PTRACE_PEEKDATA (FOLL_FORCE: any mapped page; "
                          "a peek fails if any of its 8 bytes is unmapped) — assumptions of the model, validated by these runs only"],
         "assumptions": ["'unreadable' for the file and ptrace strategies means unmapped: they return the real bytes of mapped PROT_NONE pages (not fabricated data)"],
